@@ -82,7 +82,7 @@ class Scenario(object):
         self.cluster = FakeCluster(world.metadata, [h.endpoint for h in hosts])
         # populate as Cluster does with metadata.all_hosts(); ordered by datacenter so that the
         # groupby defect of DCAwareRoundRobinPolicy.populate (C21) is not what is being observed here
-        ordered = sorted(hosts, key=lambda h: (h.datacenter, h.address))
+        ordered = sorted(hosts, key=lambda h: (h.datacenter, h.address, h.endpoint.port))
         self.policies = {}
         for shuffle in (False, True):
             child = make_child(kind, local_dc, n_remote)
@@ -123,8 +123,8 @@ class Scenario(object):
                           % len(child.recorded), self.label())
             return
         idx = world.index_of
-        plan = [idx[h.address] for h in plan_hosts]
-        child_plan = [idx[h.address] for h in child.recorded[0]]
+        plan = [idx[h.endpoint] for h in plan_hosts]
+        child_plan = [idx[h.endpoint] for h in child.recorded[0]]
         up = [s is True for s in self.up_states]
         prefix_set = set(r for r in want_set if up[r] and self.is_local(r))
         k = len(prefix_set)
@@ -137,6 +137,10 @@ class Scenario(object):
         ctx.case((world.part, tuple(o for _t, o in world.ring), world.locs, strategy, sorted(options.items()), start,
                   self.kind, self.local_dc, self.n_remote, self.live_mask, self.up_states, shuffle), nontrivial=nontrivial)
         ctx.count("plans_judged")
+        if world.shared_address:
+            ctx.count("plans_on_worlds_with_hosts_sharing_an_address")
+            if any(world.hosts[r].address == world.hosts[h].address for r in prefix_set for h in expected_tail):
+                ctx.count("plans_where_a_tail_host_shares_the_address_of_a_prefix_replica")
         ctx.count("plan_hosts_observed", len(plan))
         if k:
             ctx.count("plans_with_replica_prefix")
@@ -226,13 +230,13 @@ class Scenario(object):
                 plan_hosts.append(h)
                 if h.is_up is not True and not child.recorded:
                     ctx.violation("replica-that-is-not-up-yielded-first", "host %s yielded before the child's plan was consulted while its "
-                                  "is_up is %r" % (h.address, h.is_up), self.label())
+                                  "is_up is %r" % (h.endpoint, h.is_up), self.label())
                     return
                 for _ in range(rng.choice([0, 1, 1, 2])):
                     i = rng.randrange(len(hosts))
                     # the host just tried fails most often
                     if rng.random() < 0.5:
-                        i = world.index_of[h.address]
+                        i = world.index_of[h.endpoint]
                     new = rng.choice([True, False, False, None])
                     hosts[i].is_up = new
                     flips.append((len(plan_hosts), "h%d" % i, new))
@@ -242,8 +246,8 @@ class Scenario(object):
         if len(child.recorded) != 1:
             return
         idx = world.index_of
-        plan = [idx[h.address] for h in plan_hosts]
-        child_plan = [idx[h.address] for h in child.recorded[0]]
+        plan = [idx[h.endpoint] for h in plan_hosts]
+        child_plan = [idx[h.endpoint] for h in child.recorded[0]]
         ctx.case(("stepwise", world.part, tuple(o for _t, o in world.ring), world.locs, self.kind, self.local_dc, self.n_remote, self.live_mask,
                   self.up_states, shuffle, tuple(flips)), nontrivial=len(flips) > 0 and len(plan) >= 2)
         ctx.count("stepwise_plans_judged")
@@ -273,7 +277,7 @@ class Scenario(object):
             plan_hosts = list(pol.make_query_plan(None, Query(key, None)))
         ctx.case(("passthrough", variant, self.kind, self.live_mask, shuffle, world.locs), nontrivial=False)
         ctx.count("passthrough_plans_judged")
-        if len(child.recorded) != 1 or [h.address for h in plan_hosts] != [h.address for h in child.recorded[0]]:
+        if len(child.recorded) != 1 or [h.endpoint for h in plan_hosts] != [h.endpoint for h in child.recorded[0]]:
             ctx.violation("plan-without-routing-information-differs-from-child-plan",
                           "variant %s: plan %s, child produced %s" % (variant, plan_hosts, child.recorded), self.label())
 
@@ -334,6 +338,8 @@ def run(ctx):
                "token); for NetworkTopologyStrategy and for shuffled plans the prefix is compared as a set")
     ctx.assume("step-wise plans: Host.is_up changes between two next() calls of one plan (the child's plan, a list taken when the child "
                "is consulted, does not); demanded then: no host twice, no host of the child's plan left out")
+    ctx.assume("hosts are identified by endpoint (address and port); about a quarter of the worlds place up to three hosts on one "
+               "address with different ports")
     ctx.assume("DCAware children are populated with hosts ordered by datacenter and an explicit local_dc, so that the populate/"
                "inference defects reported under C21 are not what is observed here; rings on which C26 reports a replica defect "
                "are skipped (counted)")
@@ -342,6 +348,11 @@ def run(ctx):
     # a hand-shaped world first: 3 hosts one DC, RF 2 and 3 - the witness of DESIGN item 17 lives here
     world = R.World("murmur3", (0, 1, 2), [("dc1", "r1"), ("dc1", "r1"), ("dc1", "r2")], [8, 16, 24])
     run_world(ctx, world, [("SimpleStrategy", {"replication_factor": 2}, False), ("SimpleStrategy", {"replication_factor": 3}, False),
+                           ("NetworkTopologyStrategy", {"dc1": 2}, False)], rng, n_scenarios=12, keys_per_ks=4)
+
+    # the same shape with the three hosts on ONE address (ports 9042-9044): hosts are endpoints, not addresses
+    world = R.World("murmur3", (0, 1, 2), [("dc1", "r1"), ("dc1", "r1"), ("dc1", "r2")], [8, 16, 24], shared_address=True)
+    run_world(ctx, world, [("SimpleStrategy", {"replication_factor": 1}, False), ("SimpleStrategy", {"replication_factor": 2}, False),
                            ("NetworkTopologyStrategy", {"dc1": 2}, False)], rng, n_scenarios=12, keys_per_ks=4)
 
     n_worlds = ctx.scale(700, 100000)
@@ -359,4 +370,6 @@ def run(ctx):
                           "shuffled_plans_with_2plus_prefix": 500, "plans_with_local_replica_not_up_in_child_plan": 500,
                           "plans_with_up_local_replica_outside_child_live_set": 200, "plans_with_remote_replicas": 500,
                           "passthrough_plans_judged": 500, "shared_metadata_replans": 1000,
+                          "plans_on_worlds_with_hosts_sharing_an_address": 3000,
+                          "plans_where_a_tail_host_shares_the_address_of_a_prefix_replica": 1000,
                           "stepwise_plans_judged": 2000, "stepwise_state_changes_between_yields": 2000}
